@@ -1,11 +1,456 @@
-import FunModel.Queue
+import FunProofs.QueueSeq
 
-/-! C05 — placeholder until FunProofs/Queue.lean lands -/
+/-! # C05 — `pubsub.Queue` is a linearizable bounded FIFO
+
+Model: `FunModel/Queue.lean` run by the machine of `FunModel/Conc.lean` (one action = one critical
+section under `q.mu`; validated against the Go code action by action by the differential run).
+Specification: `FunProofs/QueueSpec.lean` (`Spec.apply`, `Spec.replay`): a plain list of items, the closed
+flag, and the limit tracker used as an opaque admission oracle (the burst credit is a `Float`; nothing here
+computes with it — the theorems only case on the Boolean answers of `credit < 1`).
+
+Quantification. `InitQ q0`: `q0` is `mkUnlimited` or `mkSoft hard soft burst` with `1 ≤ hard`, `soft ≤ hard`
+(what `NewUnlimitedQueue` / `NewQueue` after `Validate` build), any `burst`. `Reach' subject (initSys q0
+programs) log s`: `s` is reached from the initial system of *any* list of thread programs by *any* finite
+list of enabled actions (start / resume-after-wake-up / cancel / helper-fire); `log` records, for every
+segment that ran, thread, program counter, operation, whether it is the invocation, the context flag it
+saw, the queue state before, and the `SegOut` (state after, signals, `ret r` or `park c`). No bounds.
+
+Segments. `IsSeg s t op first c o` says `o` is the invocation segment (`first`, live context) or a re-check
+segment after a wake-up (only for blocking operations) of `op` in queue state `s`; `run_segments` shows every
+segment of every run is of this form and starts in a state satisfying the sequential invariant `SInv`
+(tracker invariant ∧ `tracker.len = q.length`), so the per-segment theorems below apply to every segment of
+every run.
+
+## Why "linearization point = returning segment" gives real-time consistency
+
+Every operation is a sequence of segments of one thread: its invocation segment (action `start t`), then
+zero or more re-check segments (actions `resume t`), the last of which returns; all of them lie between
+the operation's invocation and its response, the last one *is* its response (`lin_point_within_operation`:
+the invocation segment of the same operation instance — same thread, same program counter — is in the log
+at or before the returning segment; `invocation_is_first`: no segment of that instance precedes its
+invocation). The theorems show that every non-returning (parking) segment leaves the abstract state
+unchanged (`park_no_effect`) and that the returning segment performs exactly the whole sequential operation
+(`seq_refines_fifo`). So each operation takes effect atomically at one instant inside its interval — its
+returning segment. If operation A responds before operation B is invoked, then A's linearization point
+(= A's response) precedes B's invocation, which is at or before B's linearization point: the order of
+linearization points extends the real-time order. `linearizable` states that replaying the operations in
+the order of their linearization points on the sequential specification reproduces every result and the
+final abstract state; `lin_program_order` that each thread's operations appear in it in program order, each
+exactly once. Operations that are parked and have not returned contribute nothing to the history, and the
+final abstract state equals the specification state after the *returned* operations only — pending
+operations have had no effect. -/
 namespace FunModel.C05
 open FunModel.Conc FunModel.Queue
 
-/-- closing never loses queued items -/
-theorem close_keeps_items (s : St) (t : Nat) : (start s t .close).st.q = s.q := by
-  simp [start]
+/-! ## tracker invariant, `Len ≤ hard limit` -/
+
+/-- `tracker_inv` (step): `length ≤ hardLimit ∧ 1 ≤ softQuota ≤ hardLimit` is preserved by `add()` and
+    `remove()`, which never change the hard limit -/
+theorem tracker_inv_step (tr : Tracker) (h : tr.Ok) :
+    tr.add.1.Ok ∧ tr.remove.Ok ∧ tr.add.1.hardLimit = tr.hardLimit ∧ tr.remove.hardLimit = tr.hardLimit :=
+  ⟨Tracker.add_ok h, Tracker.remove_ok h, Tracker.hardLimit_add tr, Tracker.hardLimit_remove tr⟩
+
+/-- `tracker_inv` (runs): in every reachable state the tracker invariant holds, the tracker's length is
+    the number of linked entries, the hard limit is the configured one, and the queue never holds more
+    items than the hard limit -/
+theorem tracker_inv {q0 : St} (h0 : InitQ q0) (programs : List (List Op)) {log : List (Ev St Op)} {s : Sys St Op}
+    (hr : Reach' subject (initSys q0 programs) log s) :
+    s.subj.tracker.Ok ∧ s.subj.tracker.len = (abs s.subj).length ∧
+    s.subj.tracker.hardLimit = q0.tracker.hardLimit ∧
+    ∀ hl, q0.tracker.hardLimit = some hl → (abs s.subj).length ≤ hl := by
+  have hI := LinInv.run h0 hr
+  refine ⟨hI.sinv.ok, by rw [abs_length]; exact hI.sinv.len, hI.hard, ?_⟩
+  intro hl hh
+  rw [abs_length, ← hI.sinv.len]
+  exact Tracker.len_le_hard hI.sinv.ok (hI.hard.trans hh)
+
+/-- for `NewQueue(QueueOptions{HardLimit: hard, SoftQuota: soft, BurstCredit: burst})`: `Len() ≤ hard` always -/
+theorem len_le_hard_limit (hard soft : Nat) (burst : Float) (h1 : 1 ≤ hard) (h2 : soft ≤ hard)
+    (programs : List (List Op)) {log : List (Ev St Op)} {s : Sys St Op}
+    (hr : Reach' subject (initSys (mkSoft hard soft burst) programs) log s) :
+    s.subj.tracker.len ≤ hard ∧ (abs s.subj).length ≤ hard := by
+  obtain ⟨_, e, _, h⟩ := tracker_inv (Or.inr ⟨hard, soft, burst, h1, h2, rfl⟩) programs hr
+  exact ⟨by rw [e]; exact h hard rfl, h hard rfl⟩
+
+/-- every segment of every run starts in a state satisfying the sequential invariant and is an invocation
+    with a live context or a re-check of a blocking operation -/
+theorem run_segments {q0 : St} (h0 : InitQ q0) (programs : List (List Op)) {log : List (Ev St Op)} {s : Sys St Op}
+    (hr : Reach' subject (initSys q0 programs) log s) :
+    SInv s.subj ∧ ∀ t pc op first c pre out, Ev.seg t pc op first c pre out ∈ log → SInv pre ∧ IsSeg pre t op first c out := by
+  obtain ⟨h1, h2⟩ := Queue.run_segments h0 hr
+  exact ⟨h1, fun t pc op first c pre out hm => h2 _ hm⟩
+
+/-! ## the admission decision -/
+
+/-- `add_decision`: `Add(v)` returns "closed" iff the queue is closed; on an open queue "full" iff the
+    length is at the hard limit (then it is also ≥ the soft quota), "nocredit" iff the length is at or above
+    the soft quota, below the hard limit, and the burst credit is `< 1`; otherwise "ok". On "ok" exactly `v`
+    is appended at the back and nothing else changes in the abstract state; any other result leaves the
+    whole state untouched. -/
+theorem add_decision (s : St) (h : SInv s) (t : Nat) (v : Int) :
+    ∃ r, (start s t (.add v)).fin = .ret r ∧
+      (r = "closed" ↔ s.closed = true) ∧
+      (r = "full" ↔ (s.closed = false ∧ s.tracker.atHardLimit = true)) ∧
+      (s.tracker.atHardLimit = true → s.tracker.atOrOverQuota = true) ∧
+      (r = "nocredit" ↔ (s.closed = false ∧ s.tracker.atOrOverQuota = true ∧ s.tracker.atHardLimit = false ∧
+          s.tracker.creditBelowOne = true)) ∧
+      (r = "ok" ↔ (s.closed = false ∧ (s.tracker.atOrOverQuota = false ∨
+          (s.tracker.atHardLimit = false ∧ s.tracker.creditBelowOne = false)))) ∧
+      (r = "ok" → abs (start s t (.add v)).st = abs s ++ [v] ∧ (start s t (.add v)).st.closed = s.closed) ∧
+      (r ≠ "ok" → (start s t (.add v)).st = s) := by
+  obtain ⟨d1, d2, d3⟩ := Tracker.add_decision s.tracker
+  obtain ⟨r1, r2, r3⟩ := doAdd_result s v
+  have hover := Tracker.atHard_over h.ok
+  refine ⟨(doAdd s v).2.1, rfl, ?_, ?_, hover, ?_, ?_, ?_, ?_⟩
+  · by_cases hc : s.closed = true
+    · simp [r1, hc]
+    · simp only [r1, hc, if_false, Bool.false_eq_true, iff_false]
+      cases s.tracker.add.2 <;> decide
+  · by_cases hc : s.closed = true
+    · simp [r1, hc]
+    · have hc' : s.closed = false := by simpa using hc
+      simp only [r1, hc, if_false, Bool.false_eq_true, true_and]
+      cases hres : s.tracker.add.2 with
+      | full => simpa using (d1.1 hres).2
+      | ok =>
+        simp only [String.reduceEq, false_iff]
+        intro hh; have := d1.2 ⟨hover hh, hh⟩; rw [hres] at this; cases this
+      | noCredit =>
+        simp only [String.reduceEq, false_iff]
+        intro hh; have := d1.2 ⟨hover hh, hh⟩; rw [hres] at this; cases this
+  · by_cases hc : s.closed = true
+    · simp [r1, hc]
+    · have hc' : s.closed = false := by simpa using hc
+      simp only [r1, hc, if_false, Bool.false_eq_true, true_and]
+      cases hres : s.tracker.add.2 with
+      | noCredit => simpa using d2.1 hres
+      | ok =>
+        simp only [String.reduceEq, false_iff]
+        intro hh; have := d2.2 hh; rw [hres] at this; cases this
+      | full =>
+        simp only [String.reduceEq, false_iff]
+        intro hh; have := d2.2 hh; rw [hres] at this; cases this
+  · by_cases hc : s.closed = true
+    · simp [r1, hc]
+    · have hc' : s.closed = false := by simpa using hc
+      simp only [r1, hc, if_false, Bool.false_eq_true, true_and]
+      cases hres : s.tracker.add.2 with
+      | ok => simpa using d3.1 hres
+      | noCredit =>
+        simp only [String.reduceEq, false_iff]
+        intro hh; have := d3.2 hh; rw [hres] at this; cases this
+      | full =>
+        simp only [String.reduceEq, false_iff]
+        intro hh; have := d3.2 hh; rw [hres] at this; cases this
+  · intro hok
+    obtain ⟨e1, e2⟩ := r3 hok
+    exact ⟨by simp [start, abs, e1], e2⟩
+  · intro hne
+    exact r2 hne
+
+/-- `BlockingAdd` never reports "full"/"nocredit": it adds only below the soft quota, where the tracker
+    accepts unconditionally -/
+theorem badd_results (s : St) (h : SInv s) {t : Nat} {v : Int} {first c : Bool} {o : SegOut St} {r : String}
+    (hs : IsSeg s t (.badd v) first c o) (hr : o.fin = .ret r) : r = "ok" ∨ r = "closed" ∨ r = "ctx" := by
+  have hsim := (seg_sim h hs rfl).2
+  rw [hr] at hsim
+  simp only [Spec.apply] at hsim
+  by_cases hcl : (specOf s).closed = true
+  · simp only [hcl, if_true, Option.some.injEq, Prod.mk.injEq] at hsim; exact Or.inr (Or.inl hsim.2.symm)
+  · simp only [hcl, if_false, Bool.false_eq_true] at hsim
+    by_cases hroom : (specOf s).tracker.hasRoom = true
+    · simp only [hroom, if_true, Option.some.injEq] at hsim
+      have hd := (Tracker.add_decision (specOf s).tracker).2.2.2 (Or.inl (by
+        cases htr : (specOf s).tracker with
+        | noLimit l => rfl
+        | soft sq hl l cr =>
+          rw [htr] at hroom
+          simpa [Tracker.hasRoom, Tracker.cap, Tracker.len, Tracker.atOrOverQuota] using hroom))
+      left
+      have : (Spec.push (specOf s) v).2 = r := by rw [hsim]
+      rw [← this]
+      simp only [Spec.push]
+      cases hadd : (specOf s).tracker.add with
+      | mk tr res => rw [hadd] at hd; simp only at hd; subst hd; rfl
+    · simp only [hroom, if_false, Bool.false_eq_true] at hsim
+      by_cases hcc : c = true
+      · simp only [hcc, if_true, Option.some.injEq, Prod.mk.injEq] at hsim; exact Or.inr (Or.inr hsim.2.symm)
+      · simp [hcc] at hsim
+
+/-! ## every segment acts on `abs` as the FIFO specification -/
+
+/-- `seq_refines_fifo`: with `abs s = s.q.map (·.2)` and `specOf s = ⟨abs s, s.closed, s.tracker⟩`: a
+    *returning* segment of a queue operation is exactly the sequential operation `Spec.apply` (same result,
+    same successor state); a *parking* segment changes nothing, and the sequential operation cannot complete
+    in that state either. The invariant is kept. -/
+theorem seq_refines_fifo (s : St) (h : SInv s) {t : Nat} {op : Op} {first c : Bool} {o : SegOut St}
+    (hs : IsSeg s t op first c o) (hn : op.isNext = false) :
+    SInv o.st ∧
+    (∀ r, o.fin = .ret r → Spec.apply (specOf s) op c = some (specOf o.st, r)) ∧
+    (∀ cnd, o.fin = .park cnd → Spec.apply (specOf s) op c = none ∧ specOf o.st = specOf s) := by
+  obtain ⟨h1, h2⟩ := seg_sim h hs hn
+  refine ⟨h1, ?_, ?_⟩
+  · intro r hr; rw [hr] at h2; exact h2
+  · intro cnd hp; rw [hp] at h2; exact h2
+
+/-- a successful `Add`/`BlockingAdd` appends exactly its item at the back (the queue was open and stays
+    open); an unsuccessful one changes nothing -/
+theorem add_appends (s : St) (h : SInv s) {t : Nat} {op : Op} {v : Int} {first c : Bool} {o : SegOut St} {r : String}
+    (hop : op = .add v ∨ op = .badd v) (hs : IsSeg s t op first c o) (hr : o.fin = .ret r) :
+    (r = "ok" → abs o.st = abs s ++ [v] ∧ o.st.closed = false ∧ s.closed = false) ∧
+    (r ≠ "ok" → specOf o.st = specOf s) := by
+  have hn : op.isNext = false := by rcases hop with rfl | rfl <;> rfl
+  exact Spec.add_reading hop ((seq_refines_fifo s h hs hn).2.1 r hr)
+
+/-- `Remove`/`Wait`/`Receive` that find an item return the head and leave the tail (closed flag unchanged,
+    tracker told about one removal); on an empty queue a returning segment changes nothing and reports
+    "none" (Remove), "closed" (closed queue) or "ctx" (open queue, cancelled context) -/
+theorem take_returns_head (s : St) (h : SInv s) {t : Nat} {op : Op} {first c : Bool} {o : SegOut St} {r : String}
+    (hop : op = .remove ∨ op = .wait ∨ op = .recv) (hs : IsSeg s t op first c o) (hr : o.fin = .ret r) :
+    (∀ v rest, abs s = v :: rest → r = toString v ∧ abs o.st = rest ∧ o.st.closed = s.closed ∧
+        o.st.tracker = s.tracker.remove) ∧
+    (abs s = [] → specOf o.st = specOf s ∧
+      ((op = .remove ∧ r = "none") ∨ (op ≠ .remove ∧ s.closed = true ∧ r = "closed") ∨
+       (op ≠ .remove ∧ s.closed = false ∧ c = true ∧ r = "ctx"))) := by
+  have hn : op.isNext = false := by rcases hop with rfl | rfl | rfl <;> rfl
+  exact Spec.take_reading hop ((seq_refines_fifo s h hs hn).2.1 r hr)
+
+/-- a non-empty queue never makes `Remove`/`Wait`/`Receive` park or fail: they return the head at once -/
+theorem take_nonempty_returns (s : St) (h : SInv s) {t : Nat} {op : Op} {first c : Bool} {o : SegOut St}
+    (hop : op = .remove ∨ op = .wait ∨ op = .recv) (hs : IsSeg s t op first c o) {v : Int} {rest : List Int}
+    (hne : abs s = v :: rest) : o.fin = .ret (toString v) := by
+  have hn : op.isNext = false := by rcases hop with rfl | rfl | rfl <;> rfl
+  obtain ⟨_, h2, h3⟩ := seq_refines_fifo s h hs hn
+  cases hf : o.fin with
+  | ret r => rw [((take_returns_head s h hop hs hf).1 v rest hne).1]
+  | park cnd =>
+    have := (h3 cnd hf).1
+    have hi : (specOf s).items = v :: rest := hne
+    rcases hop with rfl | rfl | rfl <;> simp [Spec.apply, hi] at this
+
+/-- `Len` returns exactly the number of queued items and changes nothing -/
+theorem len_exact (s : St) (h : SInv s) {t : Nat} {first c : Bool} {o : SegOut St} (hs : IsSeg s t .len first c o) :
+    o.fin = .ret (toString (abs s).length) ∧ specOf o.st = specOf s := by
+  obtain ⟨_, h2, h3⟩ := seq_refines_fifo s h hs rfl
+  cases hf : o.fin with
+  | ret r => obtain ⟨e1, e2⟩ := Spec.len_reading (h2 r hf); exact ⟨by rw [e2]; rfl, e1⟩
+  | park cnd => have := (h3 cnd hf).1; simp [Spec.apply] at this
+
+/-- `Close` changes no items (and not the tracker); it sets the closed flag -/
+theorem close_keeps_items (s : St) (h : SInv s) {t : Nat} {first c : Bool} {o : SegOut St} (hs : IsSeg s t .close first c o) :
+    o.fin = .ret "ok" ∧ abs o.st = abs s ∧ o.st.tracker = s.tracker ∧ o.st.closed = true := by
+  obtain ⟨_, h2, h3⟩ := seq_refines_fifo s h hs rfl
+  cases hf : o.fin with
+  | ret r => obtain ⟨e1, e2, e3, e4⟩ := Spec.close_reading (h2 r hf); exact ⟨by rw [e4], e1, e2, e3⟩
+  | park cnd => have := (h3 cnd hf).1; simp [Spec.apply] at this
+
+/-- `ctx_error_no_effect`: a segment that returns a context error saw a cancelled context and left items,
+    closed flag and tracker exactly as they were -/
+theorem ctx_error_no_effect (s : St) (h : SInv s) {t : Nat} {op : Op} {first c : Bool} {o : SegOut St}
+    (hs : IsSeg s t op first c o) (hn : op.isNext = false) (hr : o.fin = .ret "ctx") :
+    specOf o.st = specOf s ∧ c = true ∧ first = false := by
+  obtain ⟨e1, e2⟩ := Spec.ctx_reading ((seq_refines_fifo s h hs hn).2.1 _ hr)
+  refine ⟨e1, e2, ?_⟩
+  cases first with
+  | false => rfl
+  | true => have := hs.live rfl; rw [this] at e2; cases e2
+
+/-- a segment that parks left items, closed flag and tracker exactly as they were: a pending operation has
+    no effect -/
+theorem park_no_effect (s : St) (h : SInv s) {t : Nat} {op : Op} {first c : Bool} {o : SegOut St}
+    (hs : IsSeg s t op first c o) {cnd : Nat} (hp : o.fin = .park cnd) : specOf o.st = specOf s := by
+  by_cases hn : op.isNext = true
+  · obtain ⟨k, rfl⟩ : ∃ k, op = .next k := by cases op <;> simp [Op.isNext] at hn; exact ⟨_, rfl⟩
+    exact next_specOf s t k c o hs.next_cases
+  · exact ((seq_refines_fifo s h hs (by simpa using hn)).2.2 cnd hp).2
+
+/-- iterator calls never change items, closed flag or tracker (they are not queue operations) -/
+theorem next_no_effect (s : St) {t k : Nat} {first c : Bool} {o : SegOut St} (hs : IsSeg s t (.next k) first c o) :
+    specOf o.st = specOf s :=
+  next_specOf s t k c o hs.next_cases
+
+/-! ## closed queues -/
+
+/-- `closed_semantics` (adds): on a closed queue every `Add`/`BlockingAdd` segment returns "closed" and
+    changes nothing -/
+theorem closed_add_fails (s : St) (h : SInv s) (hc : s.closed = true) {t : Nat} {op : Op} {v : Int} {first c : Bool}
+    {o : SegOut St} (hop : op = .add v ∨ op = .badd v) (hs : IsSeg s t op first c o) :
+    o.fin = .ret "closed" ∧ specOf o.st = specOf s := by
+  have hn : op.isNext = false := by rcases hop with rfl | rfl <;> rfl
+  obtain ⟨_, h2, h3⟩ := seq_refines_fifo s h hs hn
+  have hcl : (specOf s).closed = true := hc
+  cases hf : o.fin with
+  | ret r =>
+    have := h2 r hf
+    rcases hop with rfl | rfl <;>
+      (simp only [Spec.apply, hcl, if_true, Option.some.injEq, Prod.mk.injEq] at this
+       exact ⟨by rw [this.2], this.1.symm⟩)
+  | park cnd =>
+    have := (h3 cnd hf).1
+    rcases hop with rfl | rfl <;> simp [Spec.apply, hcl] at this
+
+/-- `closed_semantics` (drain): on a closed queue `Remove`/`Wait`/`Receive` still return the remaining items
+    oldest first; on a closed empty queue `Wait`/`Receive` return "closed" without parking; the queue
+    stays closed -/
+theorem closed_drain (s : St) (h : SInv s) (hc : s.closed = true) {t : Nat} {op : Op} {first c : Bool}
+    {o : SegOut St} (hop : op = .remove ∨ op = .wait ∨ op = .recv) (hs : IsSeg s t op first c o) :
+    (∀ v rest, abs s = v :: rest → o.fin = .ret (toString v) ∧ abs o.st = rest ∧ o.st.closed = true) ∧
+    (abs s = [] → op ≠ .remove → o.fin = .ret "closed" ∧ specOf o.st = specOf s) := by
+  have hn : op.isNext = false := by rcases hop with rfl | rfl | rfl <;> rfl
+  obtain ⟨_, h2, h3⟩ := seq_refines_fifo s h hs hn
+  constructor
+  · intro v rest hne
+    have hf := take_nonempty_returns s h hop hs hne
+    obtain ⟨_, e2, e3, _⟩ := (take_returns_head s h hop hs hf).1 v rest hne
+    exact ⟨hf, e2, by rw [e3]; exact hc⟩
+  · intro hem hnr
+    cases hf : o.fin with
+    | ret r =>
+      obtain ⟨e1, e2⟩ := (take_returns_head s h hop hs hf).2 hem
+      rcases e2 with ⟨e, _⟩ | ⟨_, _, e⟩ | ⟨_, e, _⟩
+      · exact absurd e hnr
+      · exact ⟨by rw [e], e1⟩
+      · rw [hc] at e; cases e
+    | park cnd =>
+      have := (h3 cnd hf).1
+      have hi : (specOf s).items = [] := hem
+      have hcl : (specOf s).closed = true := hc
+      rcases hop with rfl | rfl | rfl <;> simp [Spec.apply, hi, hcl] at this
+
+/-- once closed, always closed: no segment of any operation reopens the queue -/
+theorem closed_stable (s : St) (h : SInv s) (hc : s.closed = true) {t : Nat} {op : Op} {first c : Bool} {o : SegOut St}
+    (hs : IsSeg s t op first c o) : o.st.closed = true := by
+  by_cases hn : op.isNext = true
+  · obtain ⟨k, rfl⟩ : ∃ k, op = .next k := by cases op <;> simp [Op.isNext] at hn; exact ⟨_, rfl⟩
+    have := next_no_effect s hs
+    simp only [specOf, SpecState.mk.injEq] at this
+    rw [this.2.1]; exact hc
+  · have hn' : op.isNext = false := by simpa using hn
+    obtain ⟨_, h2, h3⟩ := seq_refines_fifo s h hs hn'
+    cases hf : o.fin with
+    | park cnd =>
+      have := (h3 cnd hf).2
+      simp only [specOf, SpecState.mk.injEq] at this
+      rw [this.2.1]; exact hc
+    | ret r =>
+      have hcl : (specOf s).closed = true := hc
+      have happ := h2 r hf
+      have : (specOf o.st).closed = true := by
+        cases op with
+        | add v => exact (by simp only [Spec.apply, hcl, if_true, Option.some.injEq, Prod.mk.injEq] at happ; rw [← happ.1]; exact hcl)
+        | badd v => exact (by simp only [Spec.apply, hcl, if_true, Option.some.injEq, Prod.mk.injEq] at happ; rw [← happ.1]; exact hcl)
+        | len => rw [(Spec.len_reading happ).1]; exact hcl
+        | close => exact (Spec.close_reading happ).2.2.1
+        | next k => simp [Op.isNext] at hn'
+        | remove =>
+          cases hi : (specOf s).items with
+          | nil => rw [((Spec.take_reading (Or.inl rfl) happ).2 hi).1]; exact hcl
+          | cons v rest => rw [((Spec.take_reading (Or.inl rfl) happ).1 v rest hi).2.2.1]; exact hcl
+        | wait =>
+          cases hi : (specOf s).items with
+          | nil => rw [((Spec.take_reading (Or.inr (Or.inl rfl)) happ).2 hi).1]; exact hcl
+          | cons v rest => rw [((Spec.take_reading (Or.inr (Or.inl rfl)) happ).1 v rest hi).2.2.1]; exact hcl
+        | recv =>
+          cases hi : (specOf s).items with
+          | nil => rw [((Spec.take_reading (Or.inr (Or.inr rfl)) happ).2 hi).1]; exact hcl
+          | cons v rest => rw [((Spec.take_reading (Or.inr (Or.inr rfl)) happ).1 v rest hi).2.2.1]; exact hcl
+      exact this
+
+/-! ## linearizability -/
+
+/-- `linearizable`: for every initial queue, all programs and every run: take the completed queue
+    operations in the order of their *returning* segments (`history log`, each with the context flag its
+    returning segment saw). Replaying exactly this sequence on the sequential specification succeeds
+    (no operation would block), yields exactly the results the run returned (`results log`), and ends in
+    exactly the abstract state of the run's final state. Parked operations that have not returned are not
+    in the history: they have had no effect. -/
+theorem linearizable {q0 : St} (h0 : InitQ q0) (programs : List (List Op)) {log : List (Ev St Op)} {s : Sys St Op}
+    (hr : Reach' subject (initSys q0 programs) log s) :
+    Spec.replay (specOf q0) (history log) = some (specOf s.subj, results log) :=
+  (LinInv.run h0 hr).lin
+
+/-- each thread's returned operations are exactly the first `pc` operations of its program, in program
+    order, each once; every segment in the log ran the operation the program has at that program counter -/
+theorem lin_program_order {q0 : St} (programs : List (List Op)) {log : List (Ev St Op)} {s : Sys St Op}
+    (hr : Reach' subject (initSys q0 programs) log s) :
+    s.ths.length = programs.length ∧
+    (∀ t th, s.ths[t]? = some th → programs[t]? = some th.ops ∧
+      retOps log t = th.ops.take th.pc ∧ retPcs log t = List.range th.pc) ∧
+    (∀ t pc op first c pre out, Ev.seg t pc op first c pre out ∈ log → ∃ p, programs[t]? = some p ∧ p[pc]? = some op) := by
+  have hI := hr.rinv
+  exact ⟨hI.len, fun t th h => ⟨hI.ops t th h, hI.rops t th h, hI.rpcs t th h⟩, hI.segs⟩
+
+
+/-- **the linearization point lies within the operation's interval.** Take any segment in the log of a run
+    (in particular a returning one: a linearization point) of operation instance (thread `t`, program counter
+    `pc`). (1) It is the invocation segment, or the invocation segment of the same instance precedes it in
+    the log. (2) If it is the invocation segment, no segment of thread `t` at the same or a later program
+    counter precedes it — an instance does nothing before its invocation. Hence for two operations A, B where
+    A's returning segment precedes B's invocation in the log, A's linearization point precedes B's. -/
+theorem lin_point_within_operation {q0 : St} (programs : List (List Op)) {s : Sys St Op} {l1 l2 : List (Ev St Op)}
+    {t pc : Nat} {op : Op} {first c : Bool} {pre : St} {out : SegOut St}
+    (hr : Reach' subject (initSys q0 programs) (l1 ++ Ev.seg t pc op first c pre out :: l2) s) :
+    (first = true ∨ ∃ c' pre' out', Ev.seg t pc op true c' pre' out' ∈ l1) ∧
+    (first = true → ∀ pc' op' f' c' pre' out', Ev.seg t pc' op' f' c' pre' out' ∈ l1 → pc' < pc) := by
+  refine ⟨hr.invocation_before, ?_⟩
+  intro hf; subst hf
+  exact hr.invocation_first
+
+/-- a context error is returned only after the operation's context was cancelled: a `cancel` action for the
+    thread lies in the log between the invocation of that very operation and the segment returning "ctx"
+    (and, by `ctx_error_no_effect`, the operation changed nothing) -/
+theorem ctx_only_after_cancel {q0 : St} (h0 : InitQ q0) (programs : List (List Op)) {s : Sys St Op}
+    {l1 l2 : List (Ev St Op)} {t pc : Nat} {op : Op} {first c : Bool} {pre : St} {out : SegOut St}
+    (hr : Reach' subject (initSys q0 programs) (l1 ++ Ev.seg t pc op first c pre out :: l2) s)
+    (hn : op.isNext = false) (hf : out.fin = .ret "ctx") :
+    specOf out.st = specOf pre ∧ first = false ∧
+    ∃ l1a l1b, l1 = l1a ++ [Ev.env (.cancel t)] ++ l1b ∧ ∀ ev ∈ l1b, ¬ ev.isStartOf t := by
+  obtain ⟨hS, hseg⟩ := (run_segments h0 programs hr).2 t pc op first c pre out (by simp)
+  obtain ⟨e1, e2, _⟩ := ctx_error_no_effect pre hS hseg hn hf
+  subst e2
+  exact ⟨e1, hr.cancel_before⟩
+
+/-- every case the driver executes (`runCase`: the choice list, then the fixed drain policy) is one of the
+    runs the theorems quantify over -/
+theorem driver_runs_covered (q0 : St) (programs : List (List Op)) (choices : List Nat) :
+    ∃ log, Reach' subject (initSys q0 programs) log (runCaseSys subject q0 programs choices) :=
+  runCase_reach subject q0 programs choices
+
+/-! ## non-vacuity: the hypotheses are satisfiable by non-trivial states and runs -/
+
+/-- valid configurations exist (unlimited, and hard limit 3 / soft quota 1 / any burst) -/
+example : InitQ mkUnlimited ∧ ∀ b, InitQ (mkSoft 3 1 b) :=
+  ⟨Or.inl rfl, fun b => Or.inr ⟨3, 1, b, by decide, by decide, rfl⟩⟩
+
+/-- a state at its hard limit satisfying `SInv` (for `add_decision`: the answer is "full", nothing changes) -/
+example : ∃ s : St, SInv s ∧ s.closed = false ∧ s.tracker.atHardLimit = true ∧ abs s = [5, 6] :=
+  ⟨{ tracker := .soft 1 2 2 0.5, q := [(1, 5), (2, 6)], nextId := 3 }, ⟨by simp [Tracker.Ok], rfl⟩, rfl, rfl, rfl⟩
+
+/-- a state above its quota but below the hard limit (the answer depends on `credit < 1` only) -/
+example : ∃ s : St, SInv s ∧ s.closed = false ∧ s.tracker.atHardLimit = false ∧ s.tracker.atOrOverQuota = true :=
+  ⟨{ tracker := .soft 1 3 2 0.5, q := [(1, 5), (2, 6)], nextId := 3 }, ⟨by simp [Tracker.Ok], rfl⟩, rfl, rfl, rfl⟩
+
+/-- `IsSeg` is satisfiable for invocations and for re-checks with a cancelled context -/
+example (s : St) : IsSeg s 0 (.add 7) true false (start s 0 (.add 7)) ∧ IsSeg s 1 .wait false true (resume s 1 .wait true) :=
+  ⟨⟨rfl, fun _ => rfl, fun h => (by cases h)⟩, ⟨rfl, fun h => (by cases h), fun _ => rfl⟩⟩
+
+/-- a concrete run on the unlimited queue: thread 1's `Wait` parks on the empty queue, thread 0 adds 5
+    (waking it) and 6, thread 1 re-checks and returns 5, thread 2's `Wait` gets 6, is invoked again and
+    parks, is cancelled, its helper fires, it re-checks and returns "ctx". -/
+example : ∃ log s, Reach' subject (initSys mkUnlimited [[.add 5, .add 6, .len], [.wait], [.wait, .wait]]) log s ∧
+    history log = [(.add 5, false), (.add 6, false), (.wait, false), (.wait, false), (.wait, true), (.len, false)] ∧
+    results log = ["ok", "ok", "5", "6", "ctx", "0"] ∧ abs s.subj = [] := by
+  obtain ⟨log, s, hr, hc⟩ := runActs_witness (sub := subject)
+    (s := initSys mkUnlimited [[.add 5, .add 6, .len], [.wait], [.wait, .wait]])
+    (acts := [.start 1, .start 0, .start 0, .resume 1, .start 2, .start 2, .cancel 2, .fire 2, .resume 2, .start 0])
+    (fun s log => decide (history log = [(.add 5, false), (.add 6, false), (.wait, false), (.wait, false), (.wait, true), (.len, false)]
+      ∧ results log = ["ok", "ok", "5", "6", "ctx", "0"] ∧ abs s.subj = [])) (by decide)
+  exact ⟨log, s, hr, of_decide_eq_true hc⟩
+
+/-- a bounded queue (hard limit 1): the third add is refused and the run's history replays on the
+    specification -/
+example (b : Float) : ∃ log s, Reach' subject (initSys (mkSoft 1 1 b) [[.add 5, .add 6], [.remove, .remove]]) log s ∧
+    results log = ["ok", "full", "5", "none"] ∧ abs s.subj = [] := by
+  refine ⟨_, _, runActs_reach (acts := [.start 0, .start 0, .start 1, .start 1]) rfl, ?_, ?_⟩ <;> rfl
 
 end FunModel.C05
